@@ -196,6 +196,26 @@ def parseDec (s : Str) : Option Rat :=
   | '+' :: r => parseUnsigned false r
   | _ => parseUnsigned false s
 
+
+/-! ## IEEE-754 double rounding of an exact value (normal range; round to nearest, ties to even)
+
+Used where a writer *computes* with doubles before printing (XCFG: `xyz / A + shift`): the model
+applies `fl` after every arithmetic operation, so that its tokens agree with CPython/numpy even
+for values that sit on a printing tie. -/
+
+def fl (q : Rat) : Rat :=
+  if q = 0 then 0 else
+  let n := q.num.natAbs
+  let d := q.den
+  let g : Int := (Nat.log2 n : Int) - (Nat.log2 d : Int)
+  -- e = floor(log2(n/d)) ∈ {g-1, g}
+  let ge : Bool := if 0 ≤ g then d * 2 ^ g.toNat ≤ n else d ≤ n * 2 ^ (-g).toNat
+  let e : Int := if ge then g else g - 1
+  let s : Int := e - 52            -- the ulp is 2^s
+  let m : Nat := if 0 ≤ s then rhe n (d * 2 ^ s.toNat) else rhe (n * 2 ^ (-s).toNat) d
+  let v : Rat := if 0 ≤ s then ((m * 2 ^ s.toNat : Nat) : Rat) else (m : Rat) / ((2 ^ (-s).toNat : Nat) : Rat)
+  if q < 0 then -v else v
+
 /-! ## blanks: strip, split, slices -/
 
 def lstrip (s : Str) : Str := s.dropWhile isWs
@@ -294,6 +314,10 @@ def decHandle (ws : List String) : Option String :=
     match w.toNat?, n.toInt? with
     | some w, some n => some (encodeStr (fmtI w n))
     | _, _ => some "bad-op"
+  | ["fmt.fl", x] =>
+    match parseRat x with
+    | some x => some (showRat (fl x))
+    | none => some "bad-op"
   | ["fmt.parse", s] =>
     match decodeStr s with
     | some s => some (match pyFloat s with | some v => showRat v | none => "ValueError")
